@@ -30,7 +30,7 @@ import cli
 import rebench.subprocess_with_timeout as swt
 import rebench.subprocess_kill as skill
 
-IMPORTS = ["Gen.GenFacts", "Model.Kill"]   # coq_eval imports List/ZArith itself
+IMPORTS = ["Gen.GenFactsKill", "Model.Kill"]   # coq_eval imports List/ZArith itself
 
 TREE_SRC = r'''
 import os, subprocess, sys, time
